@@ -80,7 +80,7 @@ def main():
 
 def run_checks(seed, dst, meta, checks, results, rust, wt):
     # 2. run the checks against the change applied to /repo
-    if meta["confirmed"]:
+    if meta["confirmed"] and checks:      # (no checks named: confirmation only, /repo is not touched)
         rc, o = sh(f"git -C /repo apply {dst}/patch.diff")
         if rc != 0:
             print("patch does not apply to /repo:", o)
